@@ -55,12 +55,12 @@ func (c listCfg) String() string {
 
 func (c listCfg) build() *listInst {
 	var s stackage.Stack
-	if c.Cap > 0 {
-		s = newStackKind(c.Kind, c.Cap)
+	if c.Cap != 0 {
+		s = newStackKind(c.Kind, c.Cap) // a negative argument asks for no capacity, like none at all
 	} else {
 		s = newStackKind(c.Kind)
 	}
-	m := &listModel{capk: c.Cap, neg: c.Neg, fwd: c.Fwd}
+	m := &listModel{capk: max(c.Cap, 0), neg: c.Neg, fwd: c.Fwd}
 	if c.Cap == math.MaxInt {
 		// the limit is stored as k+1, which does not exist for k = MaxInt: the constructor treats the
 		// request as "no capacity" (Cap() == -1). Either way the stack must never count as full.
@@ -393,7 +393,7 @@ func c01Configs(c *Ctx) []listCfg {
 			listCfg{Kind: kindNames[(i+2)%5], FIFO: i%2 == 0, Cap: n + 2, Neg: true, Fwd: true, MaxL: n + 3, Prefill: n, Mtx: i%2 == 0})
 	}
 	// capacities at the edge of int (the stored limit is k+1): the stack must simply never fill up
-	for _, cp := range []int{math.MaxInt, math.MaxInt - 1, 1 << 32} {
+	for _, cp := range []int{math.MaxInt, math.MaxInt - 1, 1 << 32, -1, -2, -7, math.MinInt} {
 		out = append(out, listCfg{"LIST", false, cp, false, false, 2, false, false, false, 0}, listCfg{"OR", true, cp, true, true, 2, false, true, false, 0})
 	}
 	return out
